@@ -358,6 +358,26 @@ class Compiler:
             return self._cell_vars.index(name)
         return None
 
+    def _emit_store_variable(self, name: str) -> None:
+        """Store the top of the stack in variable `name` (the value stays).
+
+        Resolves the name like an assignment does: closure cell of a captured
+        local, plain local, variable of an enclosing function, global.
+        """
+        cell_slot = self._get_cell_var(name)
+        if cell_slot is not None:
+            self._emit(OpCode.STORE_CELL, cell_slot)
+            return
+        slot = self._get_local(name)
+        if slot is not None:
+            self._emit(OpCode.STORE_LOCAL, slot)
+            return
+        closure_slot = self._get_free_var(name)
+        if closure_slot is not None:
+            self._emit(OpCode.STORE_CLOSURE, closure_slot)
+            return
+        self._emit(OpCode.STORE_NAME, self._add_name(name))
+
     def _find_captured_vars(self, body: Node, locals_set: set) -> set:
         """Find all variables captured by inner functions."""
         captured = set()
@@ -655,24 +675,13 @@ class Compiler:
 
             # Store key in variable
             if isinstance(node.left, VariableDeclaration):
-                decl = node.left.declarations[0]
-                name = decl.id.name
+                name = node.left.declarations[0].id.name
                 if self._in_function:
                     self._add_local(name)
-                    slot = self._get_local(name)
-                    self._emit(OpCode.STORE_LOCAL, slot)
-                else:
-                    idx = self._add_name(name)
-                    self._emit(OpCode.STORE_NAME, idx)
+                self._emit_store_variable(name)
                 self._emit(OpCode.POP)
             elif isinstance(node.left, Identifier):
-                name = node.left.name
-                slot = self._get_local(name)
-                if slot is not None:
-                    self._emit(OpCode.STORE_LOCAL, slot)
-                else:
-                    idx = self._add_name(name)
-                    self._emit(OpCode.STORE_NAME, idx)
+                self._emit_store_variable(node.left.name)
                 self._emit(OpCode.POP)
             elif isinstance(node.left, MemberExpression):
                 # for (obj.prop in ...) or for (obj[key] in ...)
@@ -725,24 +734,13 @@ class Compiler:
 
             # Store value in variable
             if isinstance(node.left, VariableDeclaration):
-                decl = node.left.declarations[0]
-                name = decl.id.name
+                name = node.left.declarations[0].id.name
                 if self._in_function:
                     self._add_local(name)
-                    slot = self._get_local(name)
-                    self._emit(OpCode.STORE_LOCAL, slot)
-                else:
-                    idx = self._add_name(name)
-                    self._emit(OpCode.STORE_NAME, idx)
+                self._emit_store_variable(name)
                 self._emit(OpCode.POP)
             elif isinstance(node.left, Identifier):
-                name = node.left.name
-                slot = self._get_local(name)
-                if slot is not None:
-                    self._emit(OpCode.STORE_LOCAL, slot)
-                else:
-                    idx = self._add_name(name)
-                    self._emit(OpCode.STORE_NAME, idx)
+                self._emit_store_variable(node.left.name)
                 self._emit(OpCode.POP)
             else:
                 raise NotImplementedError(
